@@ -17,7 +17,7 @@ import (
 
 func vC03Bounds() (maxKV, keyLen int) {
 	if verifrt.Thorough() {
-		return 3, 3
+		return 3, 2 // (3 keys of 3 bytes took more than 30 minutes per verb group)
 	}
 	return 2, 2
 }
